@@ -41,6 +41,9 @@ type Contract struct {
 	Header     string
 	Requires   []*Clause
 	Ensures    []*Clause
+	ObjInv     []*Clause // object invariant of the receiver: assumed at entry, proved at exit, not demanded of callers
+	Implements string    // role/interface contract this function's contract must refine
+	Preserves  []*Clause // with `modifies everything`: locations that nevertheless keep their value
 	Modifies   []*Clause // Expr is a location expression; nil Expr + Text "nothing"
 	HasMod     bool
 	Allocates  []string
@@ -100,7 +103,7 @@ var clauseKeywords = map[string]bool{
 	"func": true, "requires": true, "ensures": true, "modifies": true, "allocates": true,
 	"loop": true, "pure": true, "trusted": true, "inline": true, "tags": true, "spec": true,
 	"ufun": true, "axiom": true, "ghost": true, "package": true, "lib": true, "nopanic": true, "arith": true,
-	"purepkg": true, "purefn": true, "sameas": true,
+	"purepkg": true, "purefn": true, "sameas": true, "preserves": true, "objinv": true, "implements": true,
 }
 
 // LoadFile parses one contract or spec file. defaultPkg is the Go package path
@@ -291,6 +294,15 @@ func (db *SpecDB) LoadFile(path, defaultPkg string, lib bool) error {
 				}
 			case kw == "sameas":
 				cur.SameAs = strings.TrimSpace(rest)
+			case kw == "implements":
+				cur.Implements = strings.TrimSpace(rest)
+			case kw == "objinv":
+				e, err := ParseExpr(rest)
+				if err != nil {
+					fail(l.no, "%v", err)
+					continue
+				}
+				cur.ObjInv = append(cur.ObjInv, &Clause{Kind: "objinv", Expr: e, Text: rest, Tags: tags, Src: src, Idx: len(cur.ObjInv)})
 			case kw == "pure":
 				cur.Pure = true
 			case kw == "trusted":
@@ -328,6 +340,19 @@ func (db *SpecDB) LoadFile(path, defaultPkg string, lib bool) error {
 						continue
 					}
 					cur.Modifies = append(cur.Modifies, &Clause{Kind: "modifies", Expr: e, Text: part, Tags: tags, Src: src})
+				}
+			case kw == "preserves":
+				for _, part := range splitTopLevel(rest, ',') {
+					part = strings.TrimSpace(part)
+					if part == "" {
+						continue
+					}
+					e, err := ParseExpr(part)
+					if err != nil {
+						fail(l.no, "%v", err)
+						continue
+					}
+					cur.Preserves = append(cur.Preserves, &Clause{Kind: "preserves", Expr: e, Text: part, Tags: tags, Src: src})
 				}
 			case kw == "allocates":
 				for _, part := range strings.Split(rest, ",") {
@@ -537,6 +562,7 @@ func (db *SpecDB) ResolveSameAs() {
 			continue
 		}
 		c.Requires, c.Ensures, c.Modifies, c.HasMod, c.Allocates = o.Requires, o.Ensures, o.Modifies, o.HasMod, o.Allocates
+		c.Preserves = o.Preserves
 		c.Pure = o.Pure
 		c.RecvName, c.ParamNames = o.RecvName, o.ParamNames
 		if len(c.Tags) == 0 {
